@@ -4,7 +4,7 @@
    by evaluation of the whole finite table inside the kernel).  Model theorems are about Model/Transport.v
    (proofs in Proofs/TransportProofs.v), which the correspondence stage ties to the running code.
 
-   Table coordinates: sv = the endpoint is a server; ph = phase 0..12 (K0 pre-kexinit, K1 kex-running,
+   Table coordinates: sv = the endpoint is a server; ph = phase 0..12 on a server, 0..18 on a client (K0 pre-kexinit, K1 kex-running,
    K2 own NEWKEYS sent / peer's awaited, E0 post-newkeys-pre-service, A0 auth-running, A1 auth-done,
    C0 authenticated, R0 rekey-running, R1 rekey-newkeys-sent; from a second session with several methods:
    M0 keyboard-interactive attempt running, M1 server: it failed / client: answer sent, M2 server: publickey
@@ -17,7 +17,7 @@
 From AV Require Import Base.Prelude Model.Transport Gen.MsgGate Proofs.MsgGateProofs Proofs.TransportProofs.
 
 (* Every cell of the table was probed. *)
-Theorem C06_table_total : forall sv ph sk va t, 0 <= ph < 13 -> 0 <= va < 4 -> 0 <= t < 256 ->
+Theorem C06_table_total : forall sv ph sk va t, 0 <= ph < Z.of_nat (nphases sv) -> 0 <= va < 4 -> 0 <= t < 256 ->
   lookup gate_row sv ph sk va t <> VX.
 Proof. exact fact_total. Qed.
 Print Assumptions C06_table_total.
@@ -25,14 +25,14 @@ Print Assumptions C06_table_total.
 (* Before the first key exchange completes only the message the exchange calls for next is handled:
    KEXINIT first, then the exchange-specific message of the peer's role, then NEWKEYS - in every role,
    with and without strict KEX, well-formed or damaged. *)
-Theorem C06_prekex : forall sv ph sk va t, 0 <= ph < 13 -> 0 <= va < 4 -> 0 <= t < 256 ->
+Theorem C06_prekex : forall sv ph sk va t, 0 <= ph < Z.of_nat (nphases sv) -> 0 <= va < 4 -> 0 <= t < 256 ->
   ph <= 2 -> lookup gate_row sv ph sk va t = VH -> calls_for sv ph t = true.
 Proof. exact fact_prekex. Qed.
 Print Assumptions C06_prekex.
 
 (* Before authentication completes (preauth_phase: every phase up to A0, and the phases around finished and
    running attempts M0..M3 except the client's M3) nothing of the connection layer (types 80..255) is handled. *)
-Theorem C06_preauth : forall sv ph sk va t, 0 <= ph < 13 -> 0 <= va < 4 -> 0 <= t < 256 ->
+Theorem C06_preauth : forall sv ph sk va t, 0 <= ph < Z.of_nat (nphases sv) -> 0 <= va < 4 -> 0 <= t < 256 ->
   preauth_phase sv ph = true -> lookup gate_row sv ph sk va t = VH -> t <= 79.
 Proof. exact fact_preauth. Qed.
 Print Assumptions C06_preauth.
@@ -42,15 +42,24 @@ Print Assumptions C06_preauth.
    keyboard-interactive challenge is outstanding - in particular right after an attempt of any method family was
    answered with USERAUTH_FAILURE, even when the stale answer is one the application's validator would accept; on
    a client before its first request and after authentication completed. *)
-Theorem C06_stale_attempt : forall sv ph sk va t, 0 <= ph < 13 -> 0 <= va < 4 -> 0 <= t < 256 ->
+Theorem C06_stale_attempt : forall sv ph sk va t, 0 <= ph < Z.of_nat (nphases sv) -> 0 <= va < 4 -> 0 <= t < 256 ->
   no_attempt sv ph = true -> 60 <= t <= 79 -> lookup gate_row sv ph sk va t = VF.
 Proof. exact fact_stale. Qed.
 Print Assumptions C06_stale_attempt.
 
+(* Client, between two authentication methods (phases 13..18: the previous method was refused, or the client itself
+   skipped it - prompt cancelled after the request had gone out, nothing to offer, password change not supported -
+   and the next method's credential callback is still pending): a USERAUTH_SUCCESS ends the connection, strict or
+   not, well-formed or damaged. *)
+Theorem C06_between_methods : forall sv ph sk va t, 0 <= ph < Z.of_nat (nphases sv) -> 0 <= va < 4 -> 0 <= t < 256 ->
+  between_phase sv ph = true -> t = 52 -> lookup gate_row sv ph sk va t = VF.
+Proof. exact fact_between. Qed.
+Print Assumptions C06_between_methods.
+
 (* A message only the other role may send (to a client: SERVICE_REQUEST, KEX init, USERAUTH_REQUEST,
    INFO_RESPONSE; to a server: SERVICE_ACCEPT, KEX reply, USERAUTH_FAILURE/SUCCESS/BANNER, type 60) is never
    handled, in any phase, strict or not, well-formed or damaged. *)
-Theorem C06_role : forall sv ph sk va t, 0 <= ph < 13 -> 0 <= va < 4 -> 0 <= t < 256 ->
+Theorem C06_role : forall sv ph sk va t, 0 <= ph < Z.of_nat (nphases sv) -> 0 <= va < 4 -> 0 <= t < 256 ->
   foreign_to sv t = true -> lookup gate_row sv ph sk va t <> VH.
 Proof. exact fact_role. Qed.
 Print Assumptions C06_role.
@@ -59,7 +68,7 @@ Print Assumptions C06_role.
    UNIMPLEMENTED and any first packet other than KEXINIT - ends the connection: at once in K1 and K2, and in K0
    (where the endpoint cannot know yet that the peer is strict) at the latest when the KEXINIT arrives with a
    non-zero sequence number, nothing else having happened. *)
-Theorem C06_strict : forall sv ph va t, 0 <= ph < 13 -> 0 <= va < 4 -> 0 <= t < 256 ->
+Theorem C06_strict : forall sv ph va t, 0 <= ph < Z.of_nat (nphases sv) -> 0 <= va < 4 -> 0 <= t < 256 ->
   ph <= 2 -> calls_for sv ph t = false ->
   (ph = 0 -> lookup gate_row sv ph true va t = VF \/ lookup gate_row sv ph true va t = VL) /\
   (1 <= ph -> lookup gate_row sv ph true va t = VF).
@@ -68,7 +77,7 @@ Print Assumptions C06_strict.
 
 (* After authentication completed: a server ignores or refuses a further USERAUTH_REQUEST, a client refuses a
    further USERAUTH_FAILURE or USERAUTH_SUCCESS. *)
-Theorem C06_postauth : forall sv ph sk va t, 0 <= ph < 13 -> 0 <= va < 4 -> 0 <= t < 256 ->
+Theorem C06_postauth : forall sv ph sk va t, 0 <= ph < Z.of_nat (nphases sv) -> 0 <= va < 4 -> 0 <= t < 256 ->
   postauth_phase sv ph = true ->
   (sv = true -> t = 50 -> lookup gate_row sv ph sk va t = VI \/ lookup gate_row sv ph sk va t = VF) /\
   (sv = false -> t = 51 \/ t = 52 -> lookup gate_row sv ph sk va t = VF).
@@ -77,7 +86,7 @@ Print Assumptions C06_postauth.
 
 (* Message numbers with no meaning are answered UNIMPLEMENTED or end the connection; never handled, never
    silently swallowed. *)
-Theorem C06_unassigned : forall sv ph sk va t, 0 <= ph < 13 -> 0 <= va < 4 -> 0 <= t < 256 ->
+Theorem C06_unassigned : forall sv ph sk va t, 0 <= ph < Z.of_nat (nphases sv) -> 0 <= va < 4 -> 0 <= t < 256 ->
   unassigned t = true ->
   lookup gate_row sv ph sk va t = VU \/ lookup gate_row sv ph sk va t = VF \/ lookup gate_row sv ph sk va t = VL.
 Proof. exact fact_unassigned. Qed.
@@ -85,7 +94,7 @@ Print Assumptions C06_unassigned.
 
 (* A damaged body (empty, truncated, trailing byte) never makes a message more acceptable: it ends the
    connection or is treated exactly like the well-formed message. *)
-Theorem C06_malformed : forall sv ph sk va t, 0 <= ph < 13 -> 0 <= va < 4 -> 0 <= t < 256 -> va <> 0 ->
+Theorem C06_malformed : forall sv ph sk va t, 0 <= ph < Z.of_nat (nphases sv) -> 0 <= va < 4 -> 0 <= t < 256 -> va <> 0 ->
   lookup gate_row sv ph sk va t = VF \/ lookup gate_row sv ph sk va t = lookup gate_row sv ph sk 0 t.
 Proof. exact fact_malformed. Qed.
 Print Assumptions C06_malformed.
@@ -124,8 +133,8 @@ Print Assumptions C06_early_kexinit.
    the connection is still up, then what was accepted in clear is the KEXINIT first and after it only
    exchange-specific messages and NEWKEYS - no IGNORE, DEBUG, UNIMPLEMENTED, nothing unknown; and while
    receiving in clear the receive sequence number equals the number of packets accepted (no wrap, no skip). *)
-Theorem C06_strict_initial : forall server (l : list event),
-  let s := run (init server) l in
+Theorem C06_strict_initial : forall server gated_ (l : list event),
+  let s := run (init_gated server gated_) l in
   closed (cn s) = false ->
   (strict (cn s) = true -> Forall allowed_clear (clear_acc s) /\ exists r, clear_acc s = 20 :: r) /\
   (recv_enc (cn s) = false -> recv_seq s = Z.of_nat (List.length (clear_acc s))).
@@ -137,8 +146,8 @@ Print Assumptions C06_strict_initial.
    on the wire first, and booking any packet list that contains a NEWKEYS leaves the counter at the number of
    packets sent after the last one. *)
 Theorem C06_seq_reset :
-  (forall server (l : list event),
-     let s := run (init server) l in
+  (forall server gated_ (l : list event),
+     let s := run (init_gated server gated_) l in
      last_recv s = 21 -> strict (cn s) = true -> closed (cn s) = false -> recv_seq s = 0) /\
   (forall c, exists r, olog (send_newkeys c) = olog c ++ (21, 0) :: r) /\
   (forall l1 l2 s, strict (cn s) = true -> ~ In 21 l2 ->
@@ -147,11 +156,13 @@ Proof. split; [exact (recv_seq_reset_all_runs true true) | split; [exact send_ne
 Print Assumptions C06_seq_reset.
 
 (* "A client accepts an authentication-success message only while a request of its own is outstanding":
-   in every run, of either role, no USERAUTH_SUCCESS is ever accepted while no request has been issued for
-   the current authentication object ([unsolicited] is the ghost flag raised by exactly that event). *)
-Theorem C06_success_outstanding : forall server (l : list event),
-  unsolicited (cn (run (init server) l)) = false.
-Proof. intros server l. apply (success_outstanding_fixed_all_runs true). reflexivity. Qed.
+   in every run, of either role, with application callbacks that answer at once or suspend (gated_; EvRelease
+   events answer them, with a credential or with nothing), no USERAUTH_SUCCESS is ever accepted while no request
+   has been issued for the current authentication object ([unsolicited] is the ghost flag raised by exactly
+   that event). *)
+Theorem C06_success_outstanding : forall server gated_ (l : list event),
+  unsolicited (cn (run (init_gated server gated_) l)) = false.
+Proof. intros server gated_ l. apply (success_outstanding_fixed_all_runs true). reflexivity. Qed.
 Print Assumptions C06_success_outstanding.
 
 (* Once a server has completed authentication for user u and no authentication task is pending, no sequence of
@@ -175,6 +186,20 @@ Proof.
   split; [exact failure_retires|]. split; [exact success_retires | exact server_task_retires].
 Qed.
 Print Assumptions C06_method_msgs_need_attempt.
+
+(* The request-outstanding bookkeeping across the skip transitions of auth.py (try_next_auth(next_method=True)):
+   every path through try_next_auth lowers the flag - also when the skipped method HAD sent its request
+   (keyboard-interactive prompt cancelled, password change not supported) or when a credential callback has nothing
+   to offer - and with the flag down a USERAUTH_SUCCESS ends the connection in EVERY state. *)
+Theorem C06_skip_transitions :
+  (forall c nm, req_issued (try_next_auth c nm) = false /\ waiting (try_next_auth c nm) = false) /\
+  (forall c, req_issued (run_task c (TClientKbdResp 1)) = false /\ req_issued (run_task c TChangePw) = false /\
+             req_issued (release_conn c 0) = false) /\
+  (forall c seq cls, req_issued c = false -> closed (dispatch c seq 52 cls) = true).
+Proof.
+  split; [exact try_next_auth_clears|]. split; [exact skip_transitions_clear | exact (success_needs_flag true)].
+Qed.
+Print Assumptions C06_skip_transitions.
 
 (* ---- about the OLD definitions (the code before /repo 5ecc05e and 9276b6d), kept as witnesses ---------------- *)
 
@@ -211,6 +236,14 @@ Example C06_ex_stale_info_response :
   let s' := run s [EvRecv 61 0; EvSettle] in
   closed (cn s') = true /\ auth_complete (cn s') = false /\ authed (cn s') = 0.
 Proof. exact (kbd_failed_then_right_answer true true). Qed.
+
+(* keyboard-interactive request sent, challenge arrives, the user cancels, the password callback is pending:
+   a USERAUTH_SUCCESS in that window ends the connection *)
+Example C06_ex_between_methods :
+  let s := run (init_gated false true) between_methods in
+  closed (cn s) = false /\ auth (cn s) = 2 /\ waiting (cn s) = true /\ req_issued (cn s) = false /\
+  closed (cn (run s [EvRecv 52 0; EvSettle])) = true.
+Proof. exact (between_methods_success true). Qed.
 
 (* ---- non-vacuity ---------------------------------------------------------------------------------------------- *)
 Example C06_ex_handled_kexinit : lookup gate_row false 0 true 0 20 = VH.
